@@ -83,6 +83,10 @@ WINDOW_TEMPLATES = {
     # observers against a send+drop
     "observe":            ("u",  ["drop s;isterm r;tryr 0", "send 31;drop s"]),
     "two-close":          ("1",  ["try 1 0 0;close s", "close r;len r"]),
+    # handle counts against a concurrent close / drop
+    "clone-close":        ("1",  ["clone s 0;scount r;isclosed s", "close r;scount r;rcount s"]),
+    "clone-close-r":      ("1",  ["clone r 1;rcount s;isclosed s", "close s;isclosed s"]),
+    "clone-drop":         ("1",  ["clone s 1;scount r", "drop s;scount r", "clone r 0;rcount s"]),
 }
 WINDOW_KINDS = ("lock", "unlock", "ld", "st", "cas", "now", "wclone", "pwrite", "pread", "park")
 
